@@ -506,3 +506,32 @@ func verifHarness_C13_data_frame_mode_message_boundaries() {
 	}
 	verifAssert(false, "witness")
 }
+
+// a ping inside a fragmented message whose assembled part is close to the
+// configured message length limit: control frames are not part of the message
+// (RFC 6455 5.4), the sequence is allowed and the message fits the limit.
+func verifHarness_C13_ping_inside_message_near_length_limit() {
+	ep := verifNewEndpoint(false, false, 0, nil)
+	ep.u.MessageLengthLimit = 10
+	first := append([]byte{byte(BinaryMessage), 9}, []byte("123456789")...)
+	err := ep.c.Parse(first)
+	verifAssert(err == nil && !ep.fake.closed, "setup-first-fragment-accepted")
+	n := 1 + verifChoose("ping_len", 5)
+	pp := verifBytes("ping", n)
+	ping := append([]byte{0x80 | byte(PingMessage), byte(n)}, pp...)
+	err = ep.c.Parse(ping)
+	verifAssertD(!verifProtocolFailure(ep, err), "accepts-what-rfc-allows", "ping-inside-message-near-limit")
+	pongs := 0
+	for _, w := range ep.fake.writes {
+		f := verifDecodeFrame(w)
+		if f.ok && f.opcode == int(PongMessage) {
+			pongs++
+			verifAssertD(len(f.payload) == n && verifEqBytes(f.payload, pp), "pong-carries-ping-payload", "near-limit")
+		}
+	}
+	verifAssertD(pongs == 1, "ping-answered-by-one-pong", "near-limit")
+	err = ep.c.Parse([]byte{0x80, 1, 'A'})
+	verifAssertD(!verifProtocolFailure(ep, err), "accepts-what-rfc-allows", "message-at-the-limit")
+	verifAssertD(len(ep.msgs) == 1 && len(ep.msgs[0].data) == 10, "valid-message-delivered", "at-the-limit-around-a-ping")
+	verifAssert(false, "witness")
+}
